@@ -97,8 +97,8 @@ theorem groupsWF_append (s F : List Task) (hs : GroupsWF s) (hF : GroupsWF F)
     rw [this, List.nil_append]
     exact hsub
 
-theorem generateAll_groupsWF (cs : List Creator) (ts : List Task)
-    (htidy : ∀ c ∈ cs, resultTidy c.name c.result = true) (h : generateAll cs = .ok ts)
+theorem generateAll_groupsWF (cmds : List Name) (cs : List Creator) (ts : List Task)
+    (htidy : ∀ c ∈ cs, resultTidy c.name c.result = true) (h : generateAll cmds cs = .ok ts)
     (hnd : (ts.map (·.name)).Nodup) : GroupsWF ts := by
   induction cs generalizing ts with
   | nil => simp [generateAll] at h; subst h; exact groupsWF_of_plain _ (by simp)
@@ -109,13 +109,15 @@ theorem generateAll_groupsWF (cs : List Creator) (ts : List Task)
     · rename_i seg hseg
       split at h
       · simp at h
-      · rename_i more hmore
-        cases h
-        have hnd2 : (more.map (·.name)).Nodup := by
-          rw [List.map_append, List.nodup_append] at hnd; exact hnd.2.1
-        exact groupsWF_append seg more
-          (generate_groupsWF c.name c.result seg (htidy c (by simp)) hseg)
-          (ih more (fun c' hc' => htidy c' (by simp [hc'])) hmore hnd2) hnd
+      · split at h
+        · simp at h
+        · rename_i more hmore
+          cases h
+          have hnd2 : (more.map (·.name)).Nodup := by
+            rw [List.map_append, List.nodup_append] at hnd; exact hnd.2.1
+          exact groupsWF_append seg more
+            (generate_groupsWF c.name c.result seg (htidy c (by simp)) hseg)
+            (ih more (fun c' hc' => htidy c' (by simp [hc'])) hmore hnd2) hnd
 
 theorem subsIn_map_extends (b : Name) (ts : List Task) (f : Task → Task) (hf : ∀ t, Extends t (f t)) :
     subsIn b (ts.map f) = subsIn b ts := by
